@@ -1402,6 +1402,8 @@ def call_real(ex, fn, args, kwargs):
         return instantiate(ex, fn, args, kwargs)
     if isinstance(fn, functools.partial):
         return ex.call(fn.func, list(fn.args) + list(args), {**fn.keywords, **kwargs})
+    if type(fn).__name__ == "_lru_cache_wrapper":
+        return memo_call(ex, fn, args, kwargs)
     clo = ex.wrap_real(fn)
     if clo is not None:
         return ex.call_closure(clo, args, kwargs)
@@ -1417,6 +1419,143 @@ def call_real(ex, fn, args, kwargs):
         except (ValueError, TypeError, KeyError, IndexError, ZeroDivisionError, decimal.InvalidOperation, StopIteration) as e:
             ex.raise_(type(e), *e.args)
     raise Unsupported(f"no model for callable {fn!r}")
+
+
+# ---- functools.lru_cache / functools.cache ----------------------------------
+# A memo is transparent - the call means what the wrapped function means - when (1) the wrapped function is a closed
+# computation: it reads nothing but its parameters, immutable constants, classes and other closed functions, and writes
+# nothing; (2) equal cache keys cannot stand for arguments the function tells apart: the arguments are strings, enum members,
+# None or classes, and numbers only under typed=True (1 == 1.0 == True == Fraction(1) share a key otherwise); (3) the
+# result is immutable, so sharing one object between calls cannot be observed. Exceptions are never cached by lru_cache.
+# Anything else stays unsupported (a cache is how seeded/C14-beat-new-lru-cache breaks C14).
+
+_MEMO_BUILTINS = {"int", "float", "str", "len", "frozenset", "tuple", "min", "max", "abs", "round", "sorted", "repr", "format",
+                  "isinstance", "bool", "divmod", "sum", "any", "all", "zip", "enumerate", "range", "reversed", "ord", "chr"}
+
+
+def _immutable_const(v, depth=0):
+    if v is None or isinstance(v, (bool, int, float, str, bytes, enum.Enum, fractions.Fraction, decimal.Decimal)):
+        return True
+    if isinstance(v, (tuple, frozenset)) and depth < 4:
+        return all(_immutable_const(x, depth + 1) for x in v)
+    return False
+
+
+def _value_class(c):
+    """classes whose construction and methods read and write nothing but the instance being built"""
+    if c in (int, float, str, bool, bytes, tuple, frozenset, fractions.Fraction, decimal.Decimal):
+        return True
+    if isinstance(c, type) and (issubclass(c, enum.Enum) or (issubclass(c, tuple) and hasattr(c, "_fields"))):
+        return True
+    return getattr(c, "__module__", "").split(".")[0] == "msdparser" and getattr(c, "__name__", "") == "MSDParameter"
+
+
+def _memo_closed(ex, pyfn, seen):
+    """None when the function is a closed computation, else the reason it is not"""
+    fi = ex.repo.lookup_pyfunc(pyfn)
+    if fi is None:
+        return f"{pyfn!r} is not a function of the tree under check"
+    if fi.qualname in seen:
+        return None
+    seen.add(fi.qualname)
+    if pyfn.__closure__:
+        return f"{fi.qualname} closes over variables of an enclosing call"
+    node = fi.node
+    local = {a.arg for a in node.args.args + node.args.kwonlyargs + node.args.posonlyargs}
+    if node.args.vararg or node.args.kwarg:
+        return f"{fi.qualname} takes *args / **kwargs"
+    body = [n for st in node.body for n in ast.walk(st)]      # not the decorators, not the annotations
+    for n in body:
+        if isinstance(n, (ast.Global, ast.Nonlocal, ast.Yield, ast.YieldFrom, ast.Await, ast.Lambda, ast.ClassDef)) or \
+                isinstance(n, (ast.FunctionDef, ast.AsyncFunctionDef)):
+            return f"{fi.qualname} contains {type(n).__name__}"
+        if isinstance(n, (ast.Attribute, ast.Subscript)) and isinstance(n.ctx, (ast.Store, ast.Del)):
+            return f"{fi.qualname} writes through an attribute or subscript"
+        if isinstance(n, ast.Name) and isinstance(n.ctx, (ast.Store, ast.Del)):
+            local.add(n.id)
+    g = pyfn.__globals__
+    for n in body:
+        if isinstance(n, ast.Attribute) and isinstance(n.ctx, ast.Load):
+            base = n.value
+            if isinstance(base, ast.Name) and base.id not in local:
+                owner = g.get(base.id, getattr(builtins, base.id, None))
+                if isinstance(owner, type) and issubclass(owner, enum.Enum) and isinstance(getattr(owner, n.attr, None), owner):
+                    continue            # an enum member
+                if isinstance(owner, types.ModuleType):
+                    tgt = getattr(owner, n.attr, None)
+                    if _immutable_const(tgt) or _value_class(tgt):
+                        continue
+                return f"{fi.qualname} reads {base.id}.{n.attr}"
+        if isinstance(n, ast.Name) and isinstance(n.ctx, ast.Load) and n.id not in local:
+            if n.id in g:
+                v = g[n.id]
+                if _immutable_const(v) or _value_class(v) or isinstance(v, types.ModuleType):
+                    continue
+                if isinstance(v, type) and issubclass(v, enum.Enum):
+                    continue
+                if isinstance(v, types.FunctionType):
+                    why = _memo_closed(ex, v, seen)
+                    if why:
+                        return why
+                    continue
+                return f"{fi.qualname} reads the module-level {n.id} ({type(v).__name__})"
+            if n.id in _MEMO_BUILTINS or n.id in ("None", "True", "False"):
+                continue
+            return f"{fi.qualname} uses {n.id}"
+    return None
+
+
+def _memo_key_ok(v, typed):
+    if v is None or isinstance(v, (str, enum.Enum, type)) and not isinstance(v, bool):
+        return True
+    if isinstance(v, (bool, int, float, fractions.Fraction, decimal.Decimal)):
+        return typed
+    if isinstance(v, (tuple, frozenset)):
+        return all(_memo_key_ok(x, typed) for x in v)
+    if is_sym(v):
+        k = v.ty.kind
+        if k in ("str", "enum"):
+            return True
+        if k in ("int", "bool", "num", "ienum"):
+            return typed
+        if k == "opt":
+            return v.ty.inner.kind in ("str", "enum") or (typed and v.ty.inner.kind in ("int", "bool", "num", "ienum"))
+    return False
+
+
+def _memo_result_ok(v):
+    if _immutable_const(v) or getattr(v, "immutable_value", False) is True:
+        return True
+    if is_sym(v):
+        k = v.ty.kind
+        return k in ("str", "enum", "int", "bool", "num", "ienum") or (k == "opt" and v.ty.inner.kind in ("str", "enum", "int", "bool", "num", "ienum"))
+    return False
+
+
+def memo_call(ex, fn, args, kwargs):
+    inner = getattr(fn, "__wrapped__", None)
+    if not isinstance(inner, types.FunctionType):
+        raise Unsupported(f"no model for callable {fn!r}")
+    try:
+        typed = bool(fn.cache_parameters().get("typed"))
+    except Exception:
+        typed = False
+    why = _memo_closed(ex, inner, set())
+    if why:
+        raise Unsupported(f"the memo on {inner.__qualname__} is not known to be transparent: {why}")
+    for a in list(args) + list(kwargs.values()):
+        if not _memo_key_ok(a, typed):
+            raise Unsupported(f"the memo on {inner.__qualname__} is not known to be transparent: an argument ({a!r}) whose cache key "
+                              f"may be shared by values the function can tell apart{'' if typed else ' (numbers need typed=True)'}")
+    clo = ex.wrap_real(inner)
+    if clo is None:
+        raise Unsupported(f"no model for callable {fn!r}")
+    clo.fi._memo_checked = True
+    r = ex.call_closure(clo, args, kwargs)
+    if not _memo_result_ok(r):
+        raise Unsupported(f"the memo on {inner.__qualname__} hands out a result that may be mutable ({r!r}): shared between calls")
+    ex.notes.append(f"functools.lru_cache on {inner.__qualname__}: a closed function of immutable arguments with an immutable result, taken as transparent")
+    return r
 
 
 def _pure(fn):
